@@ -168,6 +168,75 @@ def c06(tier, seed):
                   min_nontrivial=500, exhaustive=True)
 
 
+def _fuzz_front(seed, runs):
+    """C07 stage F: libFuzzer (ASan) with the same span/render oracle inside the target."""
+    import glob
+    import re
+    import shutil
+    import tempfile
+    import time
+    res = common.Result()
+    res.builds.append("fuzz-asan")
+    binary = build("fuzz")
+    work = tempfile.mkdtemp(prefix="fuzz-", dir=os.path.join(common.VERIF, "run"))
+    t0 = time.time()
+    try:
+        corpus = os.path.join(work, "corpus")
+        os.makedirs(corpus)
+        k = 0
+        for f in sorted(glob.glob("/repo/examples/*.ns")) + sorted(glob.glob("/repo/tests/stress/*.ns")):
+            with open(f, "rb") as fh:
+                data = fh.read()[:1024]
+            with open(os.path.join(corpus, f"seed{k}"), "wb") as fh:
+                fh.write(data)
+            k += 1
+        for text in ["make x get 1\nshout(x)\n", "do f(a) start\nreturn a add 1\nend\nshout(f(1))\n", "shout(\"{x} \\n\")", "jasi (true) start comot end", "if to say (1 small pass 2) start end if not so start end", "1.", "\"a\\"]:
+            with open(os.path.join(corpus, f"seed{k}"), "w") as fh:
+                fh.write(text)
+            k += 1
+        env = dict(common.ENV_BASE)
+        env["ASAN_OPTIONS"] = "detect_leaks=0:detect_stack_use_after_return=0:abort_on_error=1"
+        cmd = [binary, corpus, f"-dict={os.path.join(common.HARNESS, 'fuzz', 'front.dict')}", f"-seed={seed}", f"-runs={runs}", "-timeout=10",
+               "-max_len=1024", f"-fork={common.NCPU}", "-ignore_crashes=1", "-ignore_timeouts=1", "-ignore_ooms=1", f"-artifact_prefix={work}/"]
+        p = subprocess.run(cmd, cwd=work, env=env, stdout=subprocess.PIPE, stderr=subprocess.STDOUT, text=True, errors="replace", timeout=3600)
+        out = p.stdout
+        m = re.search(r"fuzzed for (\d+) iterations", out)
+        execs = int(m.group(1)) if m else 0
+        cov = re.findall(r"cov: (\d+) ft: (\d+) corp: (\d+)", out)
+        res.evaluations = execs
+        if cov:
+            res.extra["fuzz_coverage_edges"] = int(cov[-1][0])
+            res.extra["fuzz_features"] = int(cov[-1][1])
+            res.extra["fuzz_corpus"] = int(cov[-1][2])
+        res.extra["fuzz_execs"] = execs
+        res.histogram["fuzz.execs"] = execs
+        # every corpus entry is a distinct input that reached new coverage
+        res.distinct_nontrivial = len(os.listdir(corpus))
+        res._hashes = set()
+        os.makedirs(os.path.join(common.REPLAYS, "C07-fuzz"), exist_ok=True)
+        for art in sorted(glob.glob(os.path.join(work, "crash-*")) + glob.glob(os.path.join(work, "timeout-*"))):
+            with open(art, "rb") as fh:
+                data = fh.read()
+            # re-run the artifact alone to get its own message
+            q = subprocess.run([binary, art, "-timeout=60"], cwd=work, env=env, stdout=subprocess.PIPE, stderr=subprocess.STDOUT, text=True, errors="replace")
+            msg = ""
+            for line in q.stdout.splitlines():
+                if "VERIF " in line or "panicked at" in line or "ERROR: AddressSanitizer" in line or "ERROR: libFuzzer" in line:
+                    msg = re.sub(r"\d+", "N", line.strip())[:160]
+                    break
+            if q.returncode == 0:
+                continue  # not reproducible alone: says nothing
+            kind = "fuzz-timeout" if os.path.basename(art).startswith("timeout-") else "fuzz-crash"
+            res.failures.append({"idx": -1, "sig": f"{kind}|{msg}", "detail": {"input": data.decode("utf-8", "replace"), "output": q.stdout[-1200:]},
+                                 "replay": {"engine": "front", "src": data.decode("utf-8", "replace"), "kind": "fuzz"}, "build": "fuzz-asan"})
+        if execs == 0:
+            res.inconclusive.append({"idx": -1, "why": "fuzzer reported no executions", "detail": {"tail": out[-800:]}})
+    finally:
+        shutil.rmtree(work, ignore_errors=True)
+    res.wall = time.time() - t0
+    return res
+
+
 def c07(tier, seed):
     res = common.Result()
     dbg = build("dbg")
@@ -183,6 +252,8 @@ def c07(tier, seed):
     for (binary, name, stage, cnt) in plan:
         c = cnt if cnt >= 1000000 else n(cnt)
         res.absorb(run_engine(binary, "front", c, seed, {"stage": stage}, build_name=name, timeout_case=30, stall_is="failure"))
+    if tier == "thorough":
+        res.absorb(_fuzz_front(seed, n(3000000)))
     triage(res)
     res.extra["stage_a_size"] = stage_a
     return finish("C07", tier, seed, "exploration", res,
